@@ -101,6 +101,9 @@ Proof.
       cbn [map]. destruct (map (render_part c) ps'); cbn [join]; rewrite Er; destruct name; discriminate.
 Qed.
 
+Lemma wf_kw_freq k : wf_kw k = true -> isNone (k_freq k) = false.
+Proof. unfold wf_kw. destruct (k_freq k); [reflexivity|discriminate]. Qed.
+
 (* ---- no DTSTART line: the start comes from dtstart= (or is absent) ---- *)
 Definition single (ev : env) (cache : bool) (start : option dt) (k : kwargs) : result :=
   match ctor ev start k with Ok r => RRule cache r | Err e => RErr e end.
@@ -111,26 +114,24 @@ Theorem rrulestr_value ev o c k : wf_kw k = true ->
 Proof.
   intros Hk Hf Hc Hi Hu. destruct (spell_value_chars c k Hk) as [Hch [H58 Hne]].
   set (v := spell_value c k) in *.
-  assert (Hpre : Forall (fun ch => linec ch = true) ((if c_prefix c then s_RRULEc else []) ++ v)).
+  set (t := (if c_prefix c then s_RRULEc else []) ++ v).
+  assert (Hpre : Forall (fun ch => linec ch = true) t).
   { apply Forall_app; split; [|exact Hch]. destruct (c_prefix c); repeat constructor. }
+  assert (Hnn : t <> []).
+  { unfold t. destruct (c_prefix c); [discriminate|exact Hne]. }
   unfold parse_rfc. rewrite (txt_ascii _ (linec_txtc _ Hpre)). cbn [negb].
-  rewrite (txt_upper _ (linec_txtc _ Hpre)).
-  unfold parse_upper. rewrite Hf, Hc, Hu. cbn [orb].
-  assert (Hnn : (if c_prefix c then s_RRULEc else []) ++ v <> []).
-  { destruct (c_prefix c); [discriminate|exact Hne]. }
-  destruct ((if c_prefix c then s_RRULEc else []) ++ v) as [|c0 t] eqn:Et; [congruence|].
-  inversion Hpre as [|? ? Hc0 _]; subst.
-  rewrite strip_nonnil by (apply linec_props, Hc0).
-  unfold get_lines. rewrite words_one by (try discriminate; apply linec_nosp, Hpre).
+  rewrite <- (app_nil_r t) at 1. rewrite strip_nonnil_app by (try assumption; apply linec_nosp, Hpre).
+  rewrite Hc, Hu. cbn [orb].
+  unfold get_lines. rewrite words_one by (try assumption; apply linec_nosp, Hpre).
+  cbn [map]. rewrite (txt_upper _ (linec_txtc _ Hpre)).
+  unfold parse_lines. rewrite Hf, Hc. cbn [orb].
   unfold shortcut. cbn [negb List.length andb Z.of_nat Pos.of_succ_nat Z.eqb Pos.eqb].
-  rewrite <- Et. clear Et.
-  assert (Hs : negb (has_char 58 ((if c_prefix c then s_RRULEc else []) ++ v))
-               || startswith s_RRULEc ((if c_prefix c then s_RRULEc else []) ++ v) = true).
-  { destruct (c_prefix c); cbn [app]; [rewrite orb_true_iff; right; reflexivity|].
+  assert (Hs : negb (has_char 58 t) || startswith s_RRULEc t = true).
+  { unfold t. destruct (c_prefix c); cbn [app]; [rewrite orb_true_iff; right; reflexivity|].
     rewrite H58. reflexivity. }
   rewrite Hs. unfold parse_rule, single. rewrite Hi.
-  assert (Hkw : parse_rrule_kw false ((if c_prefix c then s_RRULEc else []) ++ v) = Ok k).
-  { destruct (c_prefix c).
+  assert (Hkw : parse_rrule_kw false t = Ok k).
+  { unfold t. destruct (c_prefix c).
     - unfold parse_rrule_kw, rrule_value.
       change (s_RRULEc ++ v) with (s_RRULE ++ 58 :: v).
       rewrite has_char_app. cbn [has_char existsb Z.eqb orb].
@@ -140,7 +141,7 @@ Proof.
       pose proof (spell_value_parse c k Hk) as P. unfold parse_rrule_kw, rrule_value in P.
       fold v in P. rewrite H58 in P. exact P.
     - cbn [app]. apply spell_value_parse, Hk. }
-  rewrite Hkw. reflexivity.
+  rewrite Hkw. rewrite (wf_kw_freq k Hk). reflexivity.
 Qed.
 
 (* ---- the property loop on the two lines DTSTART / RRULE ---- *)
@@ -224,20 +225,23 @@ Proof.
   change (l1 ++ [10] ++ l2) with (l1 ++ 10 :: l2).
   assert (Ht : Forall (fun ch => txtc ch = true) (l1 ++ 10 :: l2)).
   { apply Forall_app; split; [apply linec_txtc, H1|]. constructor; [reflexivity|apply linec_txtc, H2]. }
-  unfold parse_rfc. rewrite (txt_ascii _ Ht). cbn [negb]. rewrite (txt_upper _ Ht).
-  unfold parse_upper. rewrite Hf, Hc, Hu. cbn [orb].
+  unfold parse_rfc. rewrite (txt_ascii _ Ht). cbn [negb].
   rewrite strip_nonnil_app by (try assumption; apply linec_nosp, H1).
+  rewrite Hc, Hu. cbn [orb].
   unfold get_lines. rewrite words_two by (try assumption; apply linec_nosp; assumption).
+  cbn [map]. rewrite (txt_upper _ Ht), (txt_upper _ (linec_txtc _ H1)), (txt_upper _ (linec_txtc _ H2)).
+  unfold parse_lines. rewrite Hf, Hc. cbn [orb].
   unfold shortcut. cbn [negb List.length andb Z.of_nat Pos.of_succ_nat Z.eqb Pos.eqb Pos.succ].
   unfold general. cbn [do_lines].
   unfold l1 at 1. rewrite (do_line_DTSTART _ _ nm (dt_parms c d) dv _ Hsp Hn58).
   rewrite (pdv_one o _ _ dv d (Hpp o _) Hi Hdv (parse_date_dt_spell _ d Hv Hus Htz)).
   cbn [a_rr a_rd a_xr a_xd a_start].
-  assert (L2 : forall a, do_line o (tzid_findall (l1 ++ 10 :: l2)) l2 a =
+  assert (L2 : forall names a, do_line o names l2 a =
                          Ok (mkacc (a_rr a ++ [v]) (a_rd a) (a_xr a) (a_xd a) (a_start a))).
-  { intro a. unfold l2. destruct (c_prefix c); [apply do_line_RRULE|].
+  { intros names a. unfold l2. destruct (c_prefix c); [apply do_line_RRULE|].
     cbn [app]. apply do_line_bare; assumption. }
-  unfold l1 in L2. rewrite L2. cbn [a_rr a_rd a_xr a_xd a_start app].
+  rewrite L2. cbn [a_rr a_rd a_xr a_xd a_start app].
   unfold assemble. cbn [a_rr a_rd a_xr a_xd a_start List.length isnil negb orb Z.of_nat Pos.of_succ_nat Z.ltb Z.compare Pos.compare Pos.compare_cont].
-  unfold parse_rule, single. rewrite Hi. fold v. unfold v. rewrite (spell_value_parse c k Hk). reflexivity.
+  unfold parse_rule, single. rewrite Hi. fold v. unfold v. rewrite (spell_value_parse c k Hk).
+  rewrite (wf_kw_freq k Hk). reflexivity.
 Qed.
